@@ -265,8 +265,8 @@ func (t *translator) leanType(ty types.Type) string {
 		}
 		return ""
 	case *types.Slice:
-		if isError(u.Elem()) {
-			return "(List (Option String))"
+		if el := t.leanType(u.Elem()); el != "" {
+			return "(List " + el + ")"
 		}
 		return ""
 	case *types.Interface:
@@ -378,6 +378,7 @@ type fctx struct {
 	derefd      map[string]string
 	trace       bool
 	localFns    map[string]*ast.FuncLit
+	loop        *loopCtx
 	opaqueVals  map[string]string
 	opaqueCalls map[*ast.CallExpr]string
 }
@@ -595,7 +596,7 @@ func (c *fctx) expr(e ast.Expr) ex {
 	case *ast.BasicLit:
 		fail("literal %s without constant value", x.Value)
 	case *ast.CompositeLit:
-		if sl, ok := c.typeOf(x).Underlying().(*types.Slice); ok && isError(sl.Elem()) {
+		if sl, ok := c.typeOf(x).Underlying().(*types.Slice); ok && c.t.leanType(sl.Elem()) != "" {
 			var xs []ex
 			for _, el := range x.Elts {
 				xs = append(xs, c.exprAs(el, sl.Elem()))
@@ -603,7 +604,16 @@ func (c *fctx) expr(e ast.Expr) ex {
 			return c.bindN(xs, func(s []string) string { return "[" + strings.Join(s, ", ") + "]" })
 		}
 	}
-	if _, ok := e.(*ast.IndexExpr); ok {
+	if ix, ok := e.(*ast.IndexExpr); ok {
+		if _, isSl := c.typeOf(ix.X).Underlying().(*types.Slice); isSl && c.t.leanType(c.typeOf(ix.X)) != "" && isInt(c.typeOf(ix.Index)) {
+			// out of range => panic
+			c.partial = true
+			r := c.bindN([]ex{c.expr(ix.X), c.expr(ix.Index)}, func(s []string) string { return "(goIndex? " + s[0] + " " + s[1] + ")" })
+			if r.partial {
+				return ex{code: "(Option.join " + r.code + ")", partial: true}
+			}
+			return ex{code: r.code, partial: true}
+		}
 		return c.opaqueValue(e)
 	}
 	fail("expression %s (%T)", c.show(e), e)
@@ -833,7 +843,7 @@ func (c *fctx) call(x *ast.CallExpr) ex {
 			switch id.Name {
 			case "append":
 				sl, ok := c.typeOf(x.Args[0]).Underlying().(*types.Slice)
-				if !ok || !isError(sl.Elem()) || x.Ellipsis.IsValid() {
+				if !ok || c.t.leanType(sl.Elem()) == "" || x.Ellipsis.IsValid() {
 					fail("append %s", c.show(x))
 				}
 				xs := []ex{c.expr(x.Args[0])}
@@ -841,6 +851,16 @@ func (c *fctx) call(x *ast.CallExpr) ex {
 					xs = append(xs, c.exprAs(a, sl.Elem()))
 				}
 				return c.bindN(xs, func(s []string) string { return "(" + s[0] + " ++ [" + strings.Join(s[1:], ", ") + "])" })
+			case "len":
+				at := c.typeOf(x.Args[0])
+				a := c.expr(x.Args[0])
+				if _, ok := at.Underlying().(*types.Slice); ok && c.t.leanType(at) != "" {
+					return c.bindN([]ex{a}, func(s []string) string { return "(" + s[0] + ".length : Int)" })
+				}
+				if isString(at) {
+					return c.bindN([]ex{a}, func(s []string) string { return "(" + s[0] + ".utf8ByteSize : Int)" })
+				}
+				fail("len of %s", at)
 			case "min", "max":
 				var xs []ex
 				for _, a := range x.Args {
@@ -910,6 +930,14 @@ func (c *fctx) call(x *ast.CallExpr) ex {
 		return c.bindN([]ex{name, v}, func(s []string) string {
 			return "(if " + fmt.Sprintf(test, s[1]) + " then some (" + s[0] + " ++ \": not positive\") else none)"
 		})
+	}
+	if fn, ok := map[string]string{"strings.TrimPrefix": "goTrimPrefix", "strings.TrimSuffix": "goTrimSuffix", "strings.HasPrefix": "goHasPrefix",
+		"strings.HasSuffix": "goHasSuffix", "strings.SplitN": "goSplitN", "strings.Split": "goSplit", "strings.Contains": "goContains"}[key]; ok {
+		var xs []ex
+		for _, a := range x.Args {
+			xs = append(xs, c.expr(a))
+		}
+		return c.bindN(xs, func(s []string) string { return "(" + fn + " " + strings.Join(s, " ") + ")" })
 	}
 	// translated functions
 	if fo := c.t.lookup(key); fo != nil && len(fo.paramsOpaque()) == 0 && !fo.spec.Trace {
@@ -1100,10 +1128,145 @@ func (c *fctx) ret(vals []string) string {
 	default:
 		r = "(" + strings.Join(parts, ", ") + ")"
 	}
+	if c.loop != nil {
+		return "«step»(.ret " + r + ")"
+	}
 	return "«ret»" + r
 }
 
+// loopCtx is the innermost enclosing range loop: its carried variables.
+type loopCtx struct {
+	state []string
+}
+
+func (c *fctx) stateTuple(vars []string) string {
+	switch len(vars) {
+	case 0:
+		return "()"
+	case 1:
+		return vars[0]
+	}
+	return "(" + strings.Join(vars, ", ") + ")"
+}
+
+// rangeLoop translates `for i, x := range xs { body }` over a translatable
+// slice: the variables declared outside the loop and assigned inside it (plus
+// the call trace) are the loop state; the body maps a state and an element to
+// `Step.next state'` (also for continue), `Step.brk state'` or `Step.ret r`
+// (a return of the enclosing function).
+func (c *fctx) rangeLoop(x *ast.RangeStmt, rest []ast.Stmt) string {
+	if x.Tok != token.DEFINE && (x.Key != nil || x.Value != nil) {
+		fail("range with assignment to existing variables")
+	}
+	sl, ok := c.typeOf(x.X).Underlying().(*types.Slice)
+	if !ok || c.t.leanType(c.typeOf(x.X)) == "" {
+		fail("range over %s", c.typeOf(x.X))
+	}
+	elT := c.t.leanType(sl.Elem())
+	// carried variables
+	var vars, varTypes []string
+	seen := map[string]bool{}
+	add := func(id *ast.Ident) {
+		obj := c.p.info.Uses[id]
+		if obj == nil || seen[id.Name] {
+			return
+		}
+		if obj.Pos() >= x.Pos() && obj.Pos() <= x.End() {
+			return // declared inside the loop
+		}
+		lt := c.t.leanType(obj.Type())
+		if pt, isPtr := obj.Type().(*types.Pointer); isPtr && c.recvVal && id.Name == c.recv {
+			lt = c.t.leanType(pt.Elem())
+		}
+		if lt == "" {
+			fail("loop assigns %s of untranslatable type", id.Name)
+		}
+		seen[id.Name] = true
+		vars = append(vars, leanIdent(id.Name))
+		varTypes = append(varTypes, lt)
+	}
+	ast.Inspect(x.Body, func(n ast.Node) bool {
+		var targets []ast.Expr
+		switch s := n.(type) {
+		case *ast.AssignStmt:
+			if s.Tok != token.DEFINE {
+				targets = s.Lhs
+			} else {
+				// := may also assign existing variables
+				for _, l := range s.Lhs {
+					if id, ok := l.(*ast.Ident); ok && c.p.info.Defs[id] == nil {
+						targets = append(targets, l)
+					}
+				}
+			}
+		case *ast.IncDecStmt:
+			targets = []ast.Expr{s.X}
+		case *ast.FuncLit:
+			return false
+		}
+		for _, l := range targets {
+			switch t := l.(type) {
+			case *ast.Ident:
+				if t.Name != "_" {
+					add(t)
+				}
+			case *ast.SelectorExpr:
+				if id, ok := t.X.(*ast.Ident); ok {
+					add(id)
+				}
+			}
+		}
+		return true
+	})
+	if c.trace {
+		vars = append(vars, "tr")
+		varTypes = append(varTypes, "(List (String × List String))")
+	}
+	sigma := "Unit"
+	if len(varTypes) == 1 {
+		sigma = varTypes[0]
+	} else if len(varTypes) > 1 {
+		sigma = "(" + strings.Join(varTypes, " × ") + ")"
+	}
+	key, val := "_", "_"
+	if id, ok := x.Key.(*ast.Ident); ok && x.Key != nil {
+		key = leanIdent(id.Name)
+	}
+	if id, ok := x.Value.(*ast.Ident); ok && x.Value != nil {
+		val = leanIdent(id.Name)
+	}
+	coll := c.expr(x.X)
+	return c.withEx(coll, func(collCode string) string {
+		savedLoop, savedPartial := c.loop, c.partial
+		c.loop, c.partial = &loopCtx{state: vars}, false
+		body := c.stmts(x.Body.List)
+		bodyPartial := c.partial
+		c.loop, c.partial = savedLoop, savedPartial || bodyPartial
+		rho := "«rho»"
+		fn, wrap := "goRange", ""
+		if bodyPartial {
+			fn, wrap = "goRange?", "some "
+		}
+		body = strings.ReplaceAll(body, "«step»", wrap)
+		destr := ""
+		if len(vars) > 1 {
+			destr = "let " + c.stateTuple(vars) + " := st\n"
+		} else if len(vars) == 1 {
+			destr = "let " + vars[0] + " := st\n"
+		}
+		loop := fmt.Sprintf("%s (σ := %s) (ρ := %s) %s %s fun st (%s : Int) (%s : %s) =>\n%s", fn, sigma, rho, collCode, c.stateTuple(vars), key, val, elT, indent(destr+body))
+		after := c.stmts(rest)
+		if bodyPartial {
+			return fmt.Sprintf("match %s with\n| none => none\n| some (.inr r) => «ret»r\n| some (.inl st) =>\n%s", loop, indent(destr+after))
+		}
+		return fmt.Sprintf("match %s with\n| .inr r => «ret»r\n| .inl st =>\n%s", loop, indent(destr+after))
+	})
+}
+
 func (c *fctx) stmts(list []ast.Stmt) string {
+	if len(list) == 0 && c.loop != nil {
+		return "«step»(.next " + c.stateTuple(c.loop.state) + ")"
+	}
 	if len(list) == 0 {
 		// fell off the end
 		if len(c.results) == 0 || c.named {
@@ -1165,6 +1328,18 @@ func (c *fctx) stmts(list []ast.Stmt) string {
 		})
 	case *ast.SwitchStmt:
 		return c.stmts(append(c.desugarSwitch(x), rest...))
+	case *ast.RangeStmt:
+		return c.rangeLoop(x, rest)
+	case *ast.BranchStmt:
+		if c.loop != nil && x.Label == nil {
+			switch x.Tok {
+			case token.CONTINUE:
+				return "«step»(.next " + c.stateTuple(c.loop.state) + ")"
+			case token.BREAK:
+				return "«step»(.brk " + c.stateTuple(c.loop.state) + ")"
+			}
+		}
+		fail("branch statement %s", x.Tok)
 	case *ast.BlockStmt:
 		return c.stmts(append(append([]ast.Stmt{}, x.List...), rest...))
 	case *ast.EmptyStmt:
@@ -1573,6 +1748,7 @@ func (t *translator) translate(sp TrFunc) (fo *funcOut) {
 	} else if len(resTypes) > 1 {
 		rt = "(" + strings.Join(resTypes, " × ") + ")"
 	}
+	body = strings.ReplaceAll(body, "«rho»", rt)
 	fo.partial = c.partial
 	if c.partial {
 		rt = "(Option " + rt + ")"
